@@ -10,13 +10,13 @@ from ..world import LINEAR, Session, diff
 
 ID = "C02"
 LEVEL = "exploration"
-QUICK_RUNS = 1000
+QUICK_RUNS = 4000
 RULE = ("Each run: LinGreedy / LinUCB / LinTS with drawn alpha, l2_lambda in {0.1,0.5,1,2,10}, epsilon, d in 1..4 (d=1 with "
         "m>1 on purpose), m in 1..7, scale=True only with a single fit; history split arbitrarily into fit + "
         "partial_fit*, arms with zero rows, arms added after fit, restarts; every query is compared with the oracle "
         "(x.beta, + alpha*sqrt(x'A^-1x), LinTS: centring at alpha=1e-9 and replay of the multivariate normal draw on "
         "copies of the generators with the ORACLE's mean and covariance).")
-EXPECTED_PROBES = ["probe.one_feature_many_rows", "probe.unobserved_arm_queried", "probe.arm_added_after_fit",
+EXPECTED_PROBES = ["probe.near_constant_column", "probe.one_feature_many_rows", "probe.unobserved_arm_queried", "probe.arm_added_after_fit",
                    "probe.lints_centring", "probe.lints_replayed", "probe.scale_true", "fault.chunk"]
 
 
@@ -34,6 +34,19 @@ def generate(rnd, tier, index=0):
                           rkind="smallint" if regime == "exact" else "real")
     if scale:      # running standardisation is excluded by the property: a single fit only
         ops = [o for i, o in enumerate(ops) if not (o["op"] in ("fit", "partial_fit") and i > 0)]
+        if rnd.random() < 0.5:
+            # a nearly constant feature column: per-arm standard deviation around the documented 1e-6 tolerance
+            # (small offset so that the scaler's variance computation stays well conditioned)
+            col = rnd.randrange(d)
+            base = rnd.choice([0.0, 0.01, 0.05])
+            eps = rnd.choice([1e-3, 3e-4, 1e-4, 1e-5, 1e-7, 0.0])
+            for o in ops:
+                if o["op"] in ("fit", "partial_fit"):
+                    for r in o["rows"]:
+                        r[2][col] = base + eps * rnd.randint(-3, 3)
+                elif o["op"] in ("predict", "expect") and o.get("Q"):
+                    for q in o["Q"]:
+                        q[col] = base + eps * rnd.randint(-5, 5)
     for op in ops:
         if rnd.random() < 0.1:
             op["restart"] = rnd.choice(["deepcopy", "p4"])
@@ -127,6 +140,12 @@ def execute(case, ctx):
                 ctx.fired("probe.arm_added_after_fit")
             if kw.get("scale"):
                 ctx.fired("probe.scale_true")
+                for a in ref.arms:
+                    if ref.observed(a) and len(ref.y[a]) > 1:
+                        sd = np.asarray(ref.X[a], dtype=float).std(axis=0)
+                        if ((sd > 1e-6) & (sd < 2e-3)).any():
+                            ctx.fired("probe.near_constant_column")
+                            break
             want, mask = _replay(copy.deepcopy(P0), ref, cfg, Q)
             ctx.fired("oracle.comparisons")
             if name == "LinTS":
